@@ -3,7 +3,8 @@
 import json, subprocess, sys, os
 env = dict(os.environ, GOFLAGS="-mod=mod", GOPROXY="off")
 env.pop("GOSUMDB", None)
-p = subprocess.run("cd /repo && go test -json -vet=off -count=1 -timeout 25m ./...", shell=True, env=env, capture_output=True, text=True)
+REPO = sys.argv[1] if len(sys.argv) > 1 else "/repo"
+p = subprocess.run("cd " + REPO + " && go test -json -vet=off -count=1 -timeout 25m ./...", shell=True, env=env, capture_output=True, text=True)
 res = {}
 for line in p.stdout.splitlines():
     try:
